@@ -14,7 +14,7 @@ RULE = ("Connected oriented triangulated surfaces built by the harness: grids, c
         "subdivides every base to 300-1500 faces, cut_small stays <= ~200), then random face "
         "deletions (new border loops), edge flips, 1-3 splits, triangle edge splits; largest face component kept; optional jitter "
         "(un-jittered regular grids keep exact shortest-path ties; 1 small case in 12 is a 'tie-trap' torus lattice with one exact "
-        "unequal-sided parallelogram between three singular vertices, where paths computed from different sources tie), optional roof-like folds (creases for the feature detector), "
+        "unequal-sided parallelogram between three singular vertices, where paths computed from different sources tie; 1 in 12 is a 'crease-tie' bent sheet of equilateral triangles with two singular vertices one above the other next to the fold), optional roof-like folds (creases for the feature detector), "
         "vertex/face relabelling (base bent_sheet = equilateral sheet folded by 90 degrees along a row: crease + exact ties); coincident positions (the vertex opposite an interior edge copied onto the other opposite "
         "vertex for 1-4 edges = adjacent faces with one barycentre, or the whole mesh collapsed onto 1-4 positions; the feature "
         "detector is dropped when a triangle has (near) zero area). Singularity sets: empty, one, two adjacent, k random, border only, mixed, a vertex with all its "
@@ -296,6 +296,19 @@ def cut_case(draw, big=False, twice=False):
         trap = [idx(pi - draw(st.integers(2 if far else 1, pi)), pj), idx(pi + 1, pj + 1),
                 idx(pi, pj - draw(st.integers(4 if far else 1, pj)))]
         tags = ["base=tie-trap"]
+    crease = None
+    if trap is None and not big and draw(st.integers(0, 11)) == 0:
+        # crease + exact ties: two singular vertices one above the other next to the fold of a bent sheet of equilateral
+        # triangles: the upper one sees two equally close feature vertices through the lower one
+        n, m = draw(st.integers(3, 9)), draw(st.integers(4, 9))
+        jc = draw(st.integers(1, m - 1))
+        V, F = bent_sheet(n, m, jc)
+        js = [j for j in range(1, m - 1) if j != jc and j + 1 != jc] or [1]
+        j = js[_pick(draw, len(js))]
+        i = draw(st.integers(1, n - 1))
+        crease = [j * (n + 1) + i, (j + 1) * (n + 1) + i]
+        trap = crease                      # same treatment: exact geometry kept (no coincident positions, scale 1)
+        tags = ["base=crease-tie"]
     ref = SurfRef(len(V), F)
     nV = len(V)
     bv = sorted(ref.border_vertices())
@@ -324,7 +337,7 @@ def cut_case(draw, big=False, twice=False):
     elif mode == "all":
         S = list(range(nV)) if nV <= 40 else [_pick(draw, nV) for _ in range(12)]
     if trap is not None:
-        mode = "tie-trap"
+        mode = "crease-tie" if crease else "tie-trap"
         S = trap + ([_pick(draw, nV)] if draw(st.integers(0, 5)) == 0 else [])
     # distinct, in a drawn order (the order is an input of the spanning-tree construction)
     S = list(dict.fromkeys(int(s) for s in S))
@@ -377,7 +390,9 @@ def cut_case(draw, big=False, twice=False):
             V = [list(COLLAPSE_POSITIONS[(col[v] + sh) % len(COLLAPSE_POSITIONS)]) for v in range(nV)]
             tags = tags + [f"collapse={1 + max(col.values())}"]
     feat = draw(st.sampled_from(["detect", "none", "none", "detect", "detect+hard", "only_border"]))
-    if trap is not None and feat != "only_border" and draw(st.integers(0, 3)) > 0:
+    if crease is not None:
+        feat = "detect" if draw(st.integers(0, 4)) > 0 else feat
+    elif trap is not None and feat != "only_border" and draw(st.integers(0, 3)) > 0:
         feat = "none"
     hard = []
     if feat == "detect+hard":
@@ -752,6 +767,8 @@ def fn(case, ctx):
         ctx.label("exact-ties-possible")
     if "base=tie-trap" in case["tags"]:
         ctx.label("tie-trap")
+    if "base=crease-tie" in case["tags"]:
+        ctx.label("crease-tie")
     # coincident positions (measured on the realised case)
     A = np.array(V, dtype=float)
     if len(set(map(tuple, A.tolist()))) < len(V):
